@@ -646,7 +646,11 @@ func c14Explore(t *testing.T, c *ev.Collector, k c14Case) {
 		Delay: true,
 		Bound: k.Bound,
 		Run: func(prefix []int, expect []bsched.Point) *bsched.Exec {
-			return runSched(t, prefix, expect, 3000, func(s *bsched.Sched) any { return c14Body(k, s) })
+			return runSched(t, prefix, expect, 3000, func(s *bsched.Sched) any { return c14Body(k, s) }, func(x *bsched.Exec) {
+				c14Judge(c, k, x, pred)
+				c.NotExhaustive("a deadlocked call could not be torn down; the worker stopped after recording it")
+				_ = c.Finish()
+			})
 		},
 		Stop: c.Expired,
 	}
